@@ -1,6 +1,7 @@
 package c09
 
 import (
+	"bytes"
 	"context"
 	"encoding/base64"
 	"fmt"
@@ -129,9 +130,58 @@ func check(c *pbt.Ctx, cs Case) {
 		c.Fail(reg, "different-message", "output decodes to a different message\n got  %v\n want %v\n json %s", back, want, js)
 		return
 	}
+	// the bytes stay intact while the converter converts another document of the same shape: the same text with
+	// every letter and digit inside string values replaced (member names are kept)
+	keep := append([]byte(nil), out...)
+	c.Step("a second j2p on another document; the first result must not change")
+	c.Protect("", func() { _, _ = cv.Do(context.Background(), desc, zapStrings([]byte(cs.JSON))) })
+	if !bytes.Equal(out, keep) {
+		c.Failf("result-overwritten", "the bytes returned by j2p (%d) changed during a later conversion\n json %s", len(out), js)
+	}
+	if len(out) > 4096 {
+		c.Class("output>4096")
+	}
 	if has(cs.Features, "nested>=2") && (cs.PadSize >= 128 || has(cs.Features, "payload>=128")) {
 		c.NonTrivial()
 	}
+}
+
+// zapStrings rewrites every string literal that is a value (not followed by ':') so that its ASCII letters become 'Z'
+// (escapes keep their length class; base64 stays base64).
+func zapStrings(doc []byte) []byte {
+	out := append([]byte(nil), doc...)
+	for i := 0; i < len(out); i++ {
+		if out[i] != '"' {
+			continue
+		}
+		j := i + 1
+		for j < len(out) && out[j] != '"' {
+			if out[j] == '\\' {
+				j++
+			}
+			j++
+		}
+		k := j + 1
+		for k < len(out) && (out[k] == ' ' || out[k] == '\t' || out[k] == '\n' || out[k] == '\r') {
+			k++
+		}
+		if k >= len(out) || out[k] != ':' {
+			for x := i + 1; x < j && x < len(out); x++ {
+				if out[x] == '\\' {
+					x++
+					if x < j && out[x] == 'u' {
+						x += 4
+					}
+					continue
+				}
+				if (out[x] >= 'a' && out[x] <= 'z') || (out[x] >= 'A' && out[x] <= 'Y') {
+					out[x] = 'Z'
+				}
+			}
+		}
+		i = j
+	}
+	return out
 }
 
 // ---------------------------------------------------------------------------
@@ -434,7 +484,7 @@ func (g *gen) message(m protoreflect.Message, depth int) {
 
 var Prop = pbt.Register(pbt.Prop[Case]{
 	Name: "TestJSONToProto",
-	Rule: "generated proto3 schema + reference message rendered as JSON (members in drawn order, keyed by field name or JSON name, whitespace / escape / float spelling variants, null members for unset fields, map entries with a null value (denoting nothing), unknown members with scalar/array/object values, nested message sizes padded to 126..129 / 16382..16385); j2p output must be accepted by protobuf-go and proto.Equal to the message; a member with a wrong-kind value must yield an error; unknown member + DisallowUnknownField => ErrUnknownField; non-trivial = nesting >= 2 and a length-delimited payload >= 128 bytes",
+	Rule: "generated proto3 schema + reference message rendered as JSON (members in drawn order, keyed by field name or JSON name, whitespace / escape / float spelling variants, null members for unset fields, map entries with a null value (denoting nothing), unknown members with scalar/array/object values, nested message sizes padded to 126..129 / 16382..16385); j2p output must be accepted by protobuf-go and proto.Equal to the message; a member with a wrong-kind value must yield an error; unknown member + DisallowUnknownField => ErrUnknownField; the returned bytes stay intact during a second conversion of the same document with other string contents; non-trivial = nesting >= 2 and a length-delimited payload >= 128 bytes",
 	Gen: func(t *rapid.T) Case {
 		sc := pmodel.GenSchema(t, pmodel.GenOpts{AllKinds: rapid.IntRange(0, 3).Draw(t, "allKinds") == 0, KeyKinds: pmodel.SupportedKeyKinds})
 		comp, err := pmodel.Compile(sc.Render(), sc.Main)
